@@ -625,7 +625,11 @@ nonce=… id=… via=… live=… decoy=…`: one handshake of a deviating peer 
 answer is `hs=<ok|fail> disp=<label of the key attached to the dispatched message|->`. -/
 def step (s : State) (toks : List String) : State × String :=
   match toks with
-  | "hs" :: rest =>
+  -- `hsu`: the same handshake against a router whose `UnauthOk` is set (it accepts unauthenticated peers over
+  -- plain TCP; the simulation platform sets it on every server).  The flag is read in the branch of
+  -- `receiveServerIdentity` for connections that are *not* TLS connections (router.go:651-655) and nowhere
+  -- else: the model of a TLS connection has no such parameter, the answer is that of `hs`.
+  | "hs" :: rest | "hsu" :: rest =>
     let r : Option String := do
       let m ← kv rest
       if m.length ≠ 17 then none
